@@ -491,8 +491,10 @@ def instances(tier):
     q = tier == "quick"
     out = []
 
-    def add(kind, plan, slots, budget, **kw):
+    def add(kind, plan, slots, budget, note=None, **kw):
         label = "%s,%s,%dslots" % (kind, "-".join(plan), len(slots))
+        if note:
+            label += "," + note
         for k, v in sorted(kw.items()):
             label += ",%s=%s" % (k, v)
         out.append(Inst(cov_scn, dict(kind=kind, plan=list(plan), slots=slots, **kw), budget=budget,
@@ -517,6 +519,7 @@ def instances(tier):
         add("bv", ["s", "S", "CAW"], TWO, 250)
         add("bv", ["s", "S"], TWO, 100, wire=True)
         add("bv", ["S", "s", "W"], TWO, 250)             # a timed subscription BEFORE an indefinite one, then a change
+        add("bv", ["s", "S", "CAW"], [[0, 7], [0, 8]], 250, note="two-processes")   # one station with two subscriber processes
         # SubscribeCOV without the optional lifetime
         add("iv", ["S", "S"], ONE, 150, absent=True)
         return out
